@@ -98,6 +98,29 @@ _m('C06',
    'Structural reset completeness only; user models are assumed to keep their own state inside construct_model().',
    'DESIGN.md §3 C06')
 
+_m('C08',
+   'structural AST rules on the fire loops and the listener map; CFG dominance for duplicate/removal guards; finite-domain evaluation of the remove_all_listeners split; sibling cross-check; refuse-before-effect',
+   'Decides that both delivery loops iterate a fresh copy of the list registered under the fired event\'s own type and '
+   'call notify exactly once per element with no early exit (so subscription changes and nested firing during a '
+   'notification cannot skip, duplicate or reorder deliveries), that duplicates are never stored, removals are harmless '
+   'when absent, emptied lists are dropped, the four unsubscribe modes do what is documented, timed and untimed paths '
+   'agree, refused calls change nothing, and that Event/TimedEvent/EventType validate payload metadata and timestamps '
+   'with the documented nesting. Holds for every history because each operation preserves the list discipline.',
+   'Trusts list/dict ordering contracts; listener objects\' own notify() behaviour is outside the analysed program.',
+   'DESIGN.md §3 C08')
+
+_m('C11',
+   'constructor must-call/dominance rules; finite-domain evaluation of the notify dispatch; table cross-check (event type <-> getter) over all published rows; sibling agreement; guarded-write rule for ENDING',
+   'Decides that every simulation statistic subscribes to warm-up (and replication end for the persistent one) on every '
+   'constructor path, that notify forwards data unchanged / resets on warm-up / closes at the clock on replication end, '
+   'that statistics are registered in and retrievable from the model, that the warm-up reset outranks same-time model '
+   'events, that each of the 68 published rows carries the getter its event name denotes with the right timestamp and '
+   'siblings publish the same sequence, and that the replication only ends with the clock at the end. Equality with an '
+   'ordinary statistic fed the filtered observations (values) is not decided.',
+   'Relies on C01 (priority order), C08 (delivery), C09/C10 (getters); name-derived reference mapping for event '
+   'types.',
+   'DESIGN.md §3 C11')
+
 
 def finalize():
     for i in range(1, 19):
